@@ -26,7 +26,11 @@ RULE = ("corpus: one witness per recorded finding; adversarial: 40 hand-written 
         "exhaustively; crossfile: multi-file projects in which every root type (per root kind: parameter / return / channel message / event payload "
         "through a helper fn, a command, a struct literal / emit_to) and every dependency is defined in another file than the function or type that "
         "mentions it - 33-case matrix + 40 (quick) / 400 (thorough) random ones, x 2 modes, each run in 4 (quick) / 16 (thorough) fresh processes "
-        "(hash orders), a failure in any run counts; random: 600 (quick) / 6000 (thorough) projgen graph projects with events, channels, enums, type mappings, 70% clean contexts / 30% wild, x 2 modes; "
+        "(hash orders), a failure in any run counts; multisite: one event name emitted from 2 or 3 sites with different payload types (each with a "
+        "nested dependency, reachable from nothing else), every order of the sites x one file | one file per site x helper | struct literal | emit_to, "
+        "49 projects x 2 modes x 2 processes; history: 60 (quick) / 600 (thorough) two-generation histories into one output directory (event removed / "
+        "added / unrelated project / same project; same or other mode), the second run is judged: the files it wrote (marker technique) against the "
+        "model of the second project, index.ts against exactly those files; random: 600 (quick) / 6000 (thorough) projgen graph projects with events, channels, enums, type mappings, 70% clean contexts / 30% wild, x 2 modes; "
         "atp: add_types_prefix through the real Tera filter on every Rust type of depth <= 2 (quick) / 3 (thorough) over 8 constructors and "
         "3 leaves, compared with the shape-level transcription. A case is non-trivial when it declares at least one custom type; "
         "distinct = distinct (project, mode) pairs")
@@ -57,6 +61,34 @@ def run_impl(job):
     return r
 
 
+MARK = "\n// C02-NOT-WRITTEN-BY-THIS-RUN\n"
+
+
+def run_impl_history(job):
+    """Two generations into one output directory; the observation is what the SECOND run wrote.
+    Before the second run every file of the output directory gets a marker appended: a file that
+    still carries it afterwards was not written by the second run (reported under "stale")."""
+    import shutil
+    first, m1, second, m2 = job
+    with vlib.Sandbox("c02h") as sb:
+        pg.generate(sb, first, m1)
+        shutil.rmtree(sb.path("proj"), ignore_errors=True)
+        if os.path.exists(sb.path("tauri.conf.json")):
+            os.remove(sb.path("tauri.conf.json"))
+        od = sb.path("out")
+        if os.path.isdir(od):
+            for n in os.listdir(od):
+                fp = os.path.join(od, n)
+                if os.path.isfile(fp):
+                    with open(fp, "a") as f:
+                        f.write(MARK)
+        r = pg.generate(sb, second, m2)
+    stale = {n: t for n, t in r["files"].items() if MARK.strip() in t}
+    r["files"] = {n: t for n, t in r["files"].items() if n not in stale}
+    r["stale"] = stale
+    return r
+
+
 def canon_fobs(f):
     if f[0] != "parsed":
         return [f[0]]
@@ -82,13 +114,15 @@ def judge_one(r, irep, mrep, broken):
     return ok, corr, (None if corr else "summaries differ")
 
 
-def evaluate(jobs, reps=1):
+def evaluate(jobs, reps=1, history=None):
     """jobs: list of (label, case, mode). Each job is run `reps` times, every run in a fresh
     process of the real CLI (fresh hash seeds, hence fresh iteration orders of the file cache and of
     every HashMap/HashSet); the property must hold and the model must be matched in EVERY run.
     The reported observation is that of the first failing run. Returns Outcomes."""
-    runs = [(c, m) for _, c, m in jobs for _ in range(reps)]
-    impl = vlib.pmap(run_impl, runs)
+    if history is not None:
+        impl = vlib.pmap(run_impl_history, [history[label] for label, _, _ in jobs for _ in range(reps)])
+    else:
+        impl = vlib.pmap(run_impl, [(c, m) for _, c, m in jobs for _ in range(reps)])
     judge_in = [sx([[r["files"][n]] if n in r["files"] else [] for n in FILES]) for r in impl]
     model_in = [sx(G.model_sx(case, mode)) for _, case, mode in jobs]
     judged = vlib.run_runner("c02-judge", judge_in)
@@ -98,6 +132,9 @@ def evaluate(jobs, reps=1):
         c = {"label": label, "mode": mode, "files": case["files"], "config": case.get("config", {})}
         if reps > 1:
             c["reps"] = reps
+        if history is not None:
+            first, m1, _, _ = history[label]
+            c["first_generation"] = {"mode": m1, "files": first["files"], "config": first.get("config", {})}
         if m and m[0] == "runner-error":
             raise vlib.BuildError("runner: %s" % (m[:2],))
         wf, cw, broken = (x == "true" for x in m[0:3])
@@ -136,6 +173,13 @@ def evaluate(jobs, reps=1):
             detail["diff"] = [{"file": FILES[i], "impl": a, "model": b} for i, (a, b) in enumerate(zip(irep["files"], mrep["files"])) if a != b]
         if r["status"] != 0 or "types.ts" not in r["files"]:
             detail["log"] = r["log"][-600:]
+        if history is not None:
+            detail["written_by_second_run"] = sorted(n for n in r["files"] if n in FILES)
+            detail["left_over_from_first_run"] = sorted(n for n in r.get("stale", {}) if n in FILES)
+            # closedness over what index.ts re-exports as it is on disk (stale modules included)
+            idx = irep["files"][3]
+            if idx[0] == "parsed":
+                detail["index_reexports_on_disk"] = idx[4]
         # C02_closed, re-checked on the extracted code: in the documented type language and outside every class
         # the model itself predicts a closed graph (a failure here would be an extraction / decoding fault)
         if kf is None and not broken and not (mrep["closed"] and mrep["nodup"]):
@@ -218,6 +262,10 @@ def run(rep):
     for i in range(nx):
         xf.append(("crossfile-random-%d" % i, G.crossfile_random(rng)))
     rep.add("crossfile", evaluate(both(xf), reps=reps))
+    rep.add("multisite", evaluate(both(G.multisite_cases()), reps=2))
+    hp = G.history_pairs(rng, 60 if rep.tier == "quick" else 600)
+    hist = {label: (a, m1, b, m2) for label, a, m1, b, m2 in hp}
+    rep.add("history", evaluate([(label, b, m2) for label, a, m1, b, m2 in hp], history=hist))
     n = 600 if rep.tier == "quick" else 6000
     rnd, nwild = [], 0
     for i in range(n):
@@ -256,8 +304,12 @@ def replay(rep, payload):
             obs = vlib.run_harness("c02-atp", cases)
             rep.add("atp", eval_atp_cases(cases, obs))
             continue
-        rep.add(it.get("stream") or "replay", evaluate([(c.get("label", "replay"), {"files": c["files"], "config": c.get("config", {})}, c["mode"])],
-                                                         reps=max(16, 4 * int(c.get("reps", 1))) if c.get("reps") else 1))
+        job = (c.get("label", "replay"), {"files": c["files"], "config": c.get("config", {})}, c["mode"])
+        hist = None
+        if c.get("first_generation"):
+            fg = c["first_generation"]
+            hist = {job[0]: ({"files": fg["files"], "config": fg.get("config", {})}, fg["mode"], job[1], job[2])}
+        rep.add(it.get("stream") or "replay", evaluate([job], reps=max(16, 4 * int(c.get("reps", 1))) if c.get("reps") else 1, history=hist))
 
 
 def eval_atp_cases(cases, obs):
